@@ -66,7 +66,7 @@ var c06Sites = []struct {
 	{"syncmap-string", "string", true, "string(sm%d)"},
 	{"syncmap-equal", "equal", true, "(sm%[1]d == sm%[1]db)"},
 	{"json-marshal-cycle", "-", true, "len(import(\"json\").Marshal(cy%d))"}, // a cyclic value handed to a Go encoder: an error, never a runaway recursion
-	{"vm-rem-zero", "-", true, "(7 %% (op(%d) * 0))"}, // a Go panic raised by a VM operator (integer remainder by zero)
+	{"vm-rem-zero", "-", true, "(7 %% (op(%d) * 0))"},                        // a Go panic raised by a VM operator (integer remainder by zero)
 }
 
 func c06Script(probes []c06Probe) string {
@@ -454,7 +454,7 @@ func init() {
 		Simulated:   []string{"host function and host object methods and their failures", "child-VM sync.Pool policy"},
 		Runs: func(tier string) int {
 			if tier == "thorough" {
-				return 60000000
+				return 5000000
 			}
 			return 60000
 		},
